@@ -1702,8 +1702,11 @@ class UTPM(Ring, RawAlgorithmsMixIn):
             src = self.data.copy()
             out.data[...] = 0
 
+        s = int(s)       # (an unsigned NumPy integer cannot be negated)
+        D = src.shape[0]
         if s <= 0:
-            out.data[:s,...] = src[-s:,...]
+            # (not out.data[:s]: for s = 0 that is the empty slice)
+            out.data[:max(D+s,0),...] = src[-s:,...]
 
         else:
             out.data[s:,...] = src[:-s,...]
